@@ -736,7 +736,13 @@ func (r *runner) runAll(entries []string) int {
 			f := p.f
 			rep := Replay{Property: r.id, Harness: p.entry, Tier: r.tier, Label: f.Label, Known: f.Known, Vec: vecOf(f), Inputs: f.Inputs, Model: f.Model, Detail: f.Detail}
 			confirmed := r.spec.NoNative
-			if nat != nil {
+			if f.VMOnly {
+				// lock-set facts are properties of the executed path, not of observable output:
+				// they cannot be replayed natively (the race detector is the native analogue)
+				confirmed = true
+				rep.Detail += " [lock-set violation observed on the symbolic path; not natively replayable]"
+			}
+			if nat != nil && !f.VMOnly {
 				n := nat[i]
 				isPanic := strings.HasPrefix(f.Label, "uncaught ") || strings.HasPrefix(f.Label, "blocked") || strings.HasPrefix(f.Label, "fatal")
 				if isPanic {
